@@ -513,19 +513,19 @@ func DriverMain(self, propID, tier string, seed int64) int {
 	}
 
 	cov := map[string]any{
-		"evaluations":         evaluations,
-		"distinct_nontrivial": len(distinct),
-		"rule":                p.Rule,
-		"samples":             samples,
-		"counters":            counters,
+		"evaluations":           evaluations,
+		"distinct_nontrivial":   len(distinct),
+		"rule":                  p.Rule,
+		"samples":               samples,
+		"counters":              counters,
 		"skipped_out_of_domain": skipped,
-		"inconclusive":        inconclusive,
-		"worker_restarts":     restarts,
-		"max_cpu_s_per_case":  maxCPU,
-		"regression_corpus":   corpusRun,
-		"known_finding_hits":  knownHits,
-		"stale_findings":      stale,
-		"violation_signatures": seenSig,
+		"inconclusive":          inconclusive,
+		"worker_restarts":       restarts,
+		"max_cpu_s_per_case":    maxCPU,
+		"regression_corpus":     corpusRun,
+		"known_finding_hits":    knownHits,
+		"stale_findings":        stale,
+		"violation_signatures":  seenSig,
 	}
 	if len(reports) > 0 {
 		cov["report_only_disagreements"] = reports
